@@ -135,3 +135,15 @@ Theorem C02_source_linear_quantization_scale : forall c alpha,
   req (rmul alpha (rpow2 (ql_se c))) (rscale alpha (ql_se c)) = true.
 Proof. intros c alpha. repeat split; [apply link_ql_dts | apply rmul_rpow2]. Qed.
 Print Assumptions C02_source_linear_quantization_scale.
+
+(* ---- the legacy quantized_bits.__call__ (data-independent path), regenerated from the source on every run
+        (coq/gen/QBitsGen.v): what it computes IS qb_val, for every configuration, scale and input. ---- *)
+From QV Require Import Link.QBitsLink.
+From QVGen Require QBitsGen.
+Theorem C02_source_qbits_translated : QBitsGen.qbits_translation_ok = true.
+Proof. exact link_qbits_ok. Qed.
+Print Assumptions C02_source_qbits_translated.
+Theorem C02_source_qbits_value_is_the_model : forall c alpha x, 0 < rden x -> 0 <= qb_ub c ->
+  req (QBitsGen.gen_qb_xq (qb_bits c) (qb_int c) (qb_kn c) (qb_sym c) alpha x) (qb_val c alpha x) = true.
+Proof. exact link_qb_xq. Qed.
+Print Assumptions C02_source_qbits_value_is_the_model.
